@@ -1,4 +1,4 @@
 Require Import PG.C02.Model PG.C02.Spec PG.C03.Model PG.C03.Spec PG.C03.Inst PG.C09.Model PG.C09.Spec PG.C09.Inst.
 Require Extraction. Require ExtrOcamlBasic.
 Extraction "model.ml" ReadTuples ParseFile ParseHeapTuple IsVisible IsDeleted ReadDeletedRows_i ReadRowsWithDeleted_i ReadRows_i ReadTuplesInRange
-  live deleted enc_page enc_tuple expected_row_i ph_decode.
+  live deleted enc_page enc_tuple expected_row_i ph_decode fill bitmap_of.
